@@ -131,20 +131,28 @@ def check_case(run, case, tier='quick'):
         # ---- CLI: stdout vs -o file, and --size
         if case.get('force_cli') or rng.random() < (0.25 if tier == 'quick' else 0.1):
             fl = ['--all_lower'] if al else []
+            # rule names may hold a path separator (Rules/team/2024 as `-r team/2024`): the CLI part then addresses the ruleset through such a name
+            cli_name, nested_root = name, None
+            if rng.random() < 0.3:
+                import shutil
+                nested_root = os.path.join(repo.scratch(), 'Rules', 'nest_' + name)
+                shutil.copytree(path, os.path.join(nested_root, '2024'))
+                cli_name = 'nest_' + name + '/2024'
+                run.ev('cli_runs_with_a_nested_rule_name')
             # sizes: none, one of the tried N, the list length itself, a size beyond the list (the run ends because the grammar is exhausted, not because N is reached)
             n = rng.choice([None, rng.choice(Ns), total, total + rng.randint(1, 3), total + rng.randint(1, 3)])
             sz = [] if n is None else ['-s', str(n)]
-            out, err, rc, to = cli.run_cli('prince_ling.py', ['-r', name] + fl + sz, stdin_mode='devnull', max_out=8 << 20)
+            out, err, rc, to = cli.run_cli('prince_ling.py', ['-r', cli_name] + fl + sz, stdin_mode='devnull', max_out=8 << 20)
             ofile = os.path.join(path, 'prince_out.txt')
             # history: the output file already exists and holds a longer list (an earlier unbounded run into the same path), or some other text
             if rng.random() < 0.7:
                 if rng.random() < 0.5:
-                    cli.run_cli('prince_ling.py', ['-r', name, '-o', ofile], stdin_mode='devnull', max_out=8 << 20)
+                    cli.run_cli('prince_ling.py', ['-r', cli_name, '-o', ofile], stdin_mode='devnull', max_out=8 << 20)
                     run.ev('cli_runs')
                 else:
                     open(ofile, 'wb').write(b'left over from an earlier run\n' * 400)
                 run.ev('cli_runs_into_an_existing_file')
-            out2, err2, rc2, to2 = cli.run_cli('prince_ling.py', ['-r', name, '-o', ofile] + fl + sz, stdin_mode='devnull', max_out=8 << 20)
+            out2, err2, rc2, to2 = cli.run_cli('prince_ling.py', ['-r', cli_name, '-o', ofile] + fl + sz, stdin_mode='devnull', max_out=8 << 20)
             run.ev('cli_runs', 2)
             if not (to or to2):
                 want = ''.join(w + '\n' for w in (U if n is None else U[:n]))
@@ -173,6 +181,8 @@ def check_case(run, case, tier='quick'):
         run.sample({'kind': case['kind'], 'all_lower': al, 'prince_grammar': disk.base_rows['Prince'][:6], 'words': total, 'head': U[:8], 'sizes_tried': len(Ns)})
     finally:
         repo.drop_rules(name)
+        import shutil
+        shutil.rmtree(os.path.join(repo.scratch(), 'Rules', 'nest_' + name), ignore_errors=True)
 
 def run(run, rng):
     run.required_events = ['POP', 'WORD', 'size_runs', 'rulesets_with_every_N', 'cli_file_equals_stdout', 'cli_runs_into_an_existing_file']
